@@ -299,25 +299,40 @@ class Folder:
             if node.id in self._locals:
                 return self._locals[node.id]
             return self.lookup(node.id)
-        if isinstance(node, (ast.GeneratorExp, ast.ListComp, ast.SetComp)):
-            if len(node.generators) != 1 or not isinstance(node.generators[0].target, ast.Name):
+        if isinstance(node, (ast.GeneratorExp, ast.ListComp, ast.SetComp, ast.DictComp)):
+            if len(node.generators) != 1:
                 raise Unfoldable(norm(node))
             g = node.generators[0]
+            tgt = g.target
+            names = [tgt.id] if isinstance(tgt, ast.Name) else ([e.id for e in tgt.elts] if isinstance(tgt, ast.Tuple) and all(isinstance(e, ast.Name) for e in tgt.elts) else None)
+            if names is None:
+                raise Unfoldable(norm(node))
             out = []
-            var = g.target.id
-            saved = self._locals.get(var, _MISSING)
+            saved = {v: self._locals.get(v, _MISSING) for v in names}
             try:
                 for item in self.ev(g.iter):
-                    self._locals[var] = item
+                    if isinstance(tgt, ast.Name):
+                        self._locals[tgt.id] = item
+                    else:
+                        if len(item) != len(names):
+                            raise Unfoldable(norm(node))
+                        for v, x in zip(names, item):
+                            self._locals[v] = x
                     if all(self.ev(c) for c in g.ifs):
-                        out.append(self.ev(node.elt))
+                        if isinstance(node, ast.DictComp):
+                            out.append((self.ev(node.key), self.ev(node.value)))
+                        else:
+                            out.append(self.ev(node.elt))
             finally:
-                if saved is _MISSING:
-                    self._locals.pop(var, None)
-                else:
-                    self._locals[var] = saved
+                for v, x in saved.items():
+                    if x is _MISSING:
+                        self._locals.pop(v, None)
+                    else:
+                        self._locals[v] = x
             if isinstance(node, ast.SetComp):
                 return set(out)
+            if isinstance(node, ast.DictComp):
+                return dict(out)
             return out
         if isinstance(node, ast.JoinedStr):
             parts = []
@@ -356,6 +371,23 @@ class Folder:
                 else:
                     out[self.ev(k)] = self.ev(v)
             return out
+        if isinstance(node, ast.Compare) and len(node.ops) == 1:
+            l, r = self.ev(node.left), self.ev(node.comparators[0])
+            op = node.ops[0]
+            if isinstance(op, ast.Eq):
+                return l == r
+            if isinstance(op, ast.NotEq):
+                return l != r
+            if isinstance(op, ast.In):
+                return l in r
+            if isinstance(op, ast.NotIn):
+                return l not in r
+            raise Unfoldable(norm(node))
+        if isinstance(node, ast.BoolOp):
+            vals = [self.ev(v) for v in node.values]
+            return all(vals) if isinstance(node.op, ast.And) else any(vals)
+        if isinstance(node, ast.UnaryOp) and isinstance(node.op, ast.Not):
+            return not self.ev(node.operand)
         if isinstance(node, ast.Attribute):
             base = self.ev(node.value)
             if isinstance(base, ClassRef):
@@ -381,6 +413,14 @@ class Folder:
                 return dict.fromkeys(self.ev(node.args[0]), self.ev(node.args[1]))
             if isinstance(f, ast.Name) and f.id == "dict" and not node.args:
                 return {k.arg: self.ev(k.value) for k in node.keywords}
+            if isinstance(f, ast.Attribute) and f.attr in ("items", "keys", "values") and not node.args:
+                recv = self.ev(f.value)
+                if isinstance(recv, dict):
+                    return list(getattr(recv, f.attr)())
+            if isinstance(f, ast.Attribute) and f.attr in ("startswith", "endswith", "upper", "lower", "strip", "lstrip", "rstrip", "replace", "format", "join", "split"):
+                recv = self.ev(f.value)
+                if isinstance(recv, str):
+                    return getattr(recv, f.attr)(*[self.ev(a) for a in node.args])
             if (
                 isinstance(f, ast.Attribute)
                 and f.attr == "compile"
